@@ -19,6 +19,7 @@ package namer
 import (
 	"fmt"
 	"path/filepath"
+	"sort"
 	"strconv"
 	"strings"
 
@@ -277,6 +278,9 @@ func (ns *NameStrategy) Name(t *types.Type) string {
 			// TODO: include function signature
 			names = append(names, m.Name.Name)
 		}
+		// Methods is a map: sort, so that the name does not depend on
+		// its iteration order.
+		sort.Strings(names[1:])
 		name = ns.Join(ns.Prefix, names, ns.Suffix)
 	case types.Func:
 		// TODO: add to name test
